@@ -1328,6 +1328,8 @@ def suite_scopes(exe, tier, seed):
     viol, samples = [], []
     evals = nontrivial = 0
     n_prog = 30 if tier == "quick" else 1500
+    import replay_bridge
+    ssa_tool = replay_bridge._build("parser")
     d = tempfile.mkdtemp(prefix="vx-e2e-")
     def add(ob, inp, what):
         if len(viol) < 20 and not any(v["obligation"] == f"e2e|scopes|{ob}" for v in viol):
@@ -1370,6 +1372,26 @@ def suite_scopes(exe, tier, seed):
                     add("shadow:twice", {"program": pi, "line": ln, "source": src}, f"program {pi}, line {ln} `{text}`: {len(got_sh[ln])} shadowing warnings for one declaration")
                 elif got_sh[ln][0] != [shadows[ln]]:
                     add("shadow:secondary", {"program": pi, "line": ln, "source": src}, f"program {pi}, line {ln} `{text}`: the shadowed declaration is said to be on line(s) {got_sh[ln][0]}, the innermost visible declaration of that name is on line {shadows[ln]}")
+            # the same function through the real parser, lifting and SSA conversion (tools/replay/parser ssa-reads): every read
+            # of a local names a parameter or a variable some statement writes, with the same (name, suffix, version)
+            fsrc = src[src.index("function f"):src.index("template T()")]
+            fpath = os.path.join(d, "f.circom")
+            open(fpath, "w").write(fsrc)
+            pr = subprocess.run([ssa_tool, "ssa-reads", fpath], capture_output=True, text=True, timeout=60)
+            try:
+                sj = json.loads(pr.stdout)
+            except Exception:
+                sj = {"status": "no-output"}
+            nontrivial += 1
+            if sj.get("status") != "ok":
+                add("ssa:status", {"program": pi, "source": src}, f"program {pi}: parse -> CFG -> SSA of the function ended with `{sj.get('status')}`")
+            else:
+                if sj["undefined_reads"]:
+                    add("ssa:undefined-read", {"program": pi, "source": src, "undefined_reads": sj["undefined_reads"]},
+                        f"program {pi}: after SSA conversion {len(sj['undefined_reads'])} read(s) name a variable (name|suffix|version) that no statement defines, e.g. {sj['undefined_reads'][0]}: the use was bound to a declaration that does not exist")
+                if sj["written_twice"]:
+                    add("ssa:written-twice", {"program": pi, "source": src, "written_twice": sj["written_twice"]},
+                        f"program {pi}: after SSA conversion a versioned variable is written more than once: {sj['written_twice'][0]}")
             claims = {}
             for (code, ln, text) in coded_findings(out):
                 if code == "CS0009" and ln in uses:
@@ -1388,7 +1410,7 @@ def suite_scopes(exe, tier, seed):
     finally:
         shutil.rmtree(d, ignore_errors=True)
     return {"unit": "e2e-scopes", "evaluations": evals, "distinct_nontrivial": nontrivial, "exhaustive": False,
-            "rule": "the real CLI on generated functions nesting if / else / while / for blocks up to depth 3, declaring variables named x, y, x_0, x_1, y_0, p (p is also a parameter; x_0 is what a renamed x looks like) with one constant each and never assigning them again: a shadowing warning (CS0001) stands at exactly the declarations that redeclare a name visible there (block scoping, parameters outermost, a `for` opens a scope for its variable), once, with the innermost visible declaration as related location; and where a use `if (NAME == K)` compares with the constant of the declaration the name refers to, the tool never says `always false` (nor anything about a parameter or loop variable)",
+            "rule": "the real CLI on generated functions nesting if / else / while / for blocks up to depth 3, declaring variables named x, y, x_0, x_1, y_0, p (p is also a parameter; x_0 is what a renamed x looks like) with one constant each and never assigning them again: a shadowing warning (CS0001) stands at exactly the declarations that redeclare a name visible there (block scoping, parameters outermost, a `for` opens a scope for its variable), once, with the innermost visible declaration as related location; and where a use `if (NAME == K)` compares with the constant of the declaration the name refers to, the tool never says `always false` (nor anything about a parameter or loop variable); and, through the real parser + lifting + SSA conversion (tools/replay/parser ssa-reads), every read of a local variable names a parameter or a variable that some statement writes with the same (name, suffix, version), and no versioned variable is written twice",
             "bound": f"{n_prog} generated functions of 4..15 actions (seeded)", "samples": samples, "violations": viol}
 
 
